@@ -331,3 +331,41 @@ def _read_chunked(data, pos, msg, res):
         if parse_field_line(line, res) is None:
             return None
     return pos
+
+
+def dechunk(data):
+    """RFC 9112 7.1 chunked-body reader for serialiser checks:
+    returns (body, complete, rest, sizes) or None if `data` is not a prefix of a
+    well-formed chunked body"""
+    n = len(data)
+    pos = 0
+    body = b""
+    sizes = []
+    while True:
+        e = data.find(b"\r\n", pos)
+        if e < 0:
+            return body, False, b"", sizes
+        line = data[pos:e]
+        semi = line.find(b";")
+        size_b = line[:semi] if semi >= 0 else line
+        if len(size_b) == 0 or not all_in(size_b, HEXDIG):
+            return None
+        size = hex_value(size_b)
+        pos = e + 2
+        if size == 0:
+            # trailer section (field lines) up to the empty line
+            while True:
+                e = data.find(b"\r\n", pos)
+                if e < 0:
+                    return body, False, b"", sizes
+                if e == pos:
+                    return body, True, data[e + 2:], sizes
+                pos = e + 2
+        if n - pos < size + 2:
+            return body + data[pos:pos + size], False, b"", sizes
+        body = body + data[pos:pos + size]
+        sizes.append(size)
+        pos += size
+        if data[pos:pos + 2] != b"\r\n":
+            return None
+        pos += 2
